@@ -35,7 +35,7 @@ CLASSES = objs.SOURCE_CLASSES + ["Sensor", "CustomSource", "Collection"]
 def plan(tier):
     return {"shards": 16, "budget_s": 40 if tier == "quick" else 600,
             "required_counters": ["figures", "body_vertices_checked", "extent_checks", "conductor_checks",
-                                  "path_trace_checks", "glyph_checks", "nonmodification_checks", "bad_kwarg_cases"]
+                                  "path_trace_checks", "glyph_checks", "nonmodification_checks", "bad_kwarg_cases", "mpl_figures"]
             + ["cls:" + c for c in CLASSES]}
 
 
@@ -73,8 +73,12 @@ def gen_case(rng):
     specs = [gen_obj(rng, str(rng.choice(CLASSES)), int(rng.choice([1, L])), scale) for _ in range(n)]
     fr = rng.random()
     frames = None if fr < 0.35 else (int(rng.integers(1, 3)) if fr < 0.6 else sorted(set(int(x) for x in rng.integers(0, L + 1, 2))))
-    return {"specs": specs, "frames": frames, "units": str(rng.choice(["m", "m", "mm", "µm", "cm", "km", "auto"])),
+    case = {"specs": specs, "frames": frames, "units": str(rng.choice(["m", "m", "mm", "µm", "cm", "km", "auto"])),
             "decorations": bool(rng.random() < 0.25), "scale": scale}
+    if rng.random() < 0.2 and specs[0]["cls"] not in ("Collection", "Sensor", "Dipole", "CustomSource"):
+        case["backend"] = "matplotlib"  # one object per figure: artists carry no object identity
+        case["specs"] = specs[:1]
+    return case
 
 
 def expected_indices(frames, L):
@@ -249,8 +253,79 @@ def min_dist_any_index(spec, pts):
     return np.min(np.array([G.dist_to_surface(spec, G.to_local(spec, pts, m=i)) for i in range(objs.path_len(spec))]), axis=0)
 
 
+class PseudoTrace:
+    """matplotlib artist presented like a plotly trace to the draw model"""
+
+    def __init__(self, type_, mode, xyz, group):
+        self.type, self.mode, self.legendgroup = type_, mode, group
+        self.x, self.y, self.z = xyz[:, 0], xyz[:, 1], xyz[:, 2]
+
+
+def check_case_mpl(ctx, case):
+    """single object through the matplotlib backend (data of the artists, Agg canvas)"""
+    import matplotlib.pyplot as plt
+
+    import magpylib as magpy
+
+    spec = case["specs"][0]
+    try:
+        with quiet():
+            obj = objs.build(spec)
+    except Exception as e:
+        ctx.inconclusive_case("setup: " + repr(e)[:100], None)
+        return
+    kw = dict(style_magnetization_show=False, style_arrow_show=False, style_orientation_show=False)
+    if case["frames"] is not None:
+        kw["style_path_frames"] = case["frames"]
+    if case["units"] != "auto":
+        kw["units_length"] = case["units"]
+    before = (D.digest_many([obj]), D.digest_defaults())
+    try:
+        with quiet():
+            fig = magpy.show(obj, backend="matplotlib", return_fig=True, **kw)
+    except Exception as e:
+        ctx.violation({"kind": "show-raised", "backend": "matplotlib", "type": type(e).__name__, "units": case["units"]}, case, exc_info(e))
+        return
+    try:
+        ctx.count("mpl_figures")
+        ctx.evaluated({**case, "backend": "matplotlib"}, nontrivial=objs.path_len(spec) > 1 or case["units"] != "m")
+        if (D.digest_many([obj]), D.digest_defaults()) != before:
+            ctx.violation({"kind": "show-modified-objects-or-defaults", "backend": "matplotlib"}, case, {})
+            return
+        ax = fig.axes[0]
+        m = re.search(r"\(([^)]+)\)", ax.get_xlabel() or "")
+        if not m or m.group(1) not in UNIT:
+            ctx.violation({"kind": "axis-title-without-known-unit", "backend": "matplotlib"}, case, {"title": ax.get_xlabel()})
+            return
+        unit = UNIT[m.group(1)]
+        traces = []
+        for col in ax.collections:
+            faces = getattr(col, "_faces", None)  # matplotlib >= 3.9: (n_faces, n_verts, 3), possibly masked
+            vec = getattr(col, "_vec", None)  # older: homogeneous (4, N)
+            if faces is not None and np.asarray(faces).size:
+                xyz = np.asarray(np.ma.filled(faces, np.nan), float).reshape(-1, 3)
+                traces.append(PseudoTrace("mesh3d", None, xyz[np.all(np.isfinite(xyz), axis=1)], "x"))
+            elif vec is not None and np.asarray(vec).size:
+                traces.append(PseudoTrace("mesh3d", None, np.asarray(vec)[:3].T, "x"))
+        for ln in ax.lines:
+            x, y, z = ln.get_data_3d()
+            xyz = np.c_[np.asarray(x, float), np.asarray(y, float), np.asarray(z, float)]
+            has_marker = ln.get_marker() not in (None, "None", "", " ")
+            traces.append(PseudoTrace("scatter3d", "markers+lines" if has_marker else "lines", xyz, "x"))
+        if not traces:
+            if spec["cls"] not in ("CustomSource",):
+                ctx.violation({"kind": "object-not-drawn", "backend": "matplotlib", "cls": spec["cls"]}, case, {})
+            return
+        check_obj(ctx, {**case, "decorations": False}, spec, traces, unit, {"cls": spec["cls"], "decorations": False, "backend": "matplotlib"})
+    finally:
+        plt.close("all")
+
+
 def check_case(ctx, case):
     import magpylib as magpy
+
+    if case.get("backend") == "matplotlib":
+        return check_case_mpl(ctx, case)
 
     try:
         with quiet():
